@@ -26,6 +26,18 @@ Inductive hop :=
 (* after a step: NodeClaims of the pool in the API, GetNodeCount, reserved counter *)
 Record sobs := mkSO { so_api : Z; so_a : Z; so_d : Z; so_p : Z; so_res : Z }.
 
+(* part D: the static protocol on the real provisioning + deprovisioning controllers, the real disruption
+   Controller restricted to StaticDrift with the real Queue.StartCommand, faults, limit changes, restarts *)
+Inductive fault := FNone | FTaint | FCreate.   (* no fault / tainting the candidate fails / creating the replacement fails *)
+Inductive dop :=
+| DProv (r : Z) (nfail : nat)
+| DInfUpd (c : name) (del : bool)
+| DDisrupt (r : Z) (budget ncands : nat) (f : fault) (cands : list name)
+| DDeprov (r : Z) (victims gone : list name)     (* victims the code chose; those that left the API at once *)
+| DFinalize (c : name)
+| DLimit (l : Z)
+| DRestart (replay : list (name * bool)).
+
 Inductive case :=
 | CaseA (fixed : bool) (pools claims : list name) (ops : list op) (obs : list aobs)
 | CaseF (caps : list rl) (remaining : rl) (kept : list bool)          (* filterByRemainingResources *)
@@ -35,6 +47,7 @@ Inductive case :=
 | CaseP (exact : bool) (limits : rl) (existing : list (nstate * rl)) (claims : list (list itype))
         (final_remaining : rl) (launched : list rl)                   (* Scheduler.Solve, one pool *)
 | CaseS (limit : Z) (hops : list hop) (sobs : list sobs)              (* static provisioning controller *)
+| CaseD (limit0 : Z) (dops : list dop) (dobs : list sobs) (settle : option (Z * Z * Z)) (* replicas, limit, final API count *)
 | CaseMk (tracked : list name) (hist : list mop)
          (obs : list (name * bool)) (expected : list (name * bool)).  (* Cluster mark/unmark history *)
 
@@ -201,6 +214,64 @@ Fixpoint checkS (L : name -> Z) (limit : Z) (s : sys) (hops : list hop) (obs : l
   | _, _ => ["corr:length"]
   end.
 
+(* the commands of one disruption pass: ticket i belongs to candidate c *)
+Fixpoint drive_drift (L : name -> Z) (s : sys) (i : nat) (f : fault) (cands : list name) : sys :=
+  match cands with
+  | [] => s
+  | c :: t =>
+      let s1 := sstep L s (SMark KPending 1%nat c) in                       (* queue.markDisrupted *)
+      let s2 := match f with
+                | FNone => sstep L (sstep L (sstep L (sstep L s1 (TkCreate i true)) (TkUpdate i)) (TkRelease i))
+                                   (SMark KDeleting 1%nat c)                (* replacement created; MarkForDeletion *)
+                | _ => sstep L (sstep L s1 (TkCreate i false)) (TkRelease i) (* CreateNodeClaims failed, released *)
+                end in
+      drive_drift L s2 (S i) f t
+  end.
+
+(* returns the new state and whether the step's witnesses are consistent with the model *)
+Definition dstep (l : Z) (s : sys) (o : dop) : sys * bool * Z :=
+  let L := fun _ : name => l in
+  match o with
+  | DProv r nf => (hstep L s (HProv r nf), true, l)
+  | DInfUpd c d => (sstep L s (InfUpdate c d), true, l)
+  | DDisrupt r b n f cands =>
+      let s1 := sstep L s (DriftBegin 1%nat r b n) in
+      let g := (List.length (tks s1) - List.length (tks s))%nat in
+      match f with
+      | FTaint => (s1, is_nil cands, l)                       (* StartCommand returned before creating anything *)
+      | _ => (drive_drift L s1 (List.length (tks s)) f cands, Nat.eqb (List.length cands) g, l)
+      end
+  | DDeprov r victims gone =>
+      let '(a, _, _) := counts (nps s) 1%nat in
+      let s1 := sstep L s (DeprovMark 1%nat r victims) in
+      (fold_left (fun s' c => sstep L (sstep L s' (ApiRemove c)) (InfDelete c)) gone s1,
+       Z.of_nat (List.length victims) =? Z.max 0 (a - r), l)
+  | DFinalize c => (sstep L (sstep L s (ApiRemove c)) (InfDelete c), true, l)
+  | DLimit l' => (s, true, l')
+  | DRestart replay =>
+      (fold_left (fun s' cd => sstep L s' (InfUpdate (fst cd) (snd cd))) replay (sstep L s Restart), true, l)
+  end.
+
+Fixpoint checkD (l : Z) (s : sys) (prev : Z) (ops : list dop) (obs : list sobs) : list string :=
+  match ops, obs with
+  | [], [] => []
+  | o :: ops', x :: obs' =>
+      let '(s', wit, l') := dstep l s o in
+      let total := so_api x + so_res x in
+      (if wit then [] else ["corr:static-witness"]) ++
+      (if sobs_matches (fun _ => l') s' x then [] else ["corr:static-protocol"]) ++
+      (* NodeClaims in the API + outstanding reservations never grow beyond the node limit *)
+      (if total <=? Z.max l' prev then [] else ["oracle:node-limit"]) ++
+      checkD l' s' total ops' obs'
+  | _, _ => ["corr:length"]
+  end.
+
+Definition settle_ok (settle : option (Z * Z * Z)) : bool :=
+  match settle with
+  | None => true
+  | Some (r, l, n) => if r <=? l then n =? r else true   (* above the limit nothing is created; the cap is checked per step *)
+  end.
+
 Definition check_case (c : case) : list string :=
   match c with
   | CaseA fixed pools claims ops obs => checkA fixed pools claims st0 (empty_obs pools claims) ops obs
@@ -214,6 +285,8 @@ Definition check_case (c : case) : list string :=
       if rl_eqb (subtract lhs rhs) out then [] else ["corr:Subtract"]
   | CaseP exact limits existing claims final launched => checkP exact limits existing claims final launched
   | CaseS limit hops obs => checkS (fun _ => limit) limit (sys0) hops obs
+  | CaseD l ops obs settle =>
+      checkD l sys0 0 ops obs ++ (if settle_ok settle then [] else ["oracle:not-settled"])
   | CaseMk tracked hist obs expected =>
       (* obs: MarkedForDeletion() of every node the real Cluster still tracks; expected: what the harness assumed
          when it computed which nodes count against the limits *)
